@@ -52,8 +52,10 @@ PROP = {
                   "that is tied to the real nom automaton by differential testing only), for the three styles, "
                   "floats as canonical shortest decimals; f64 <-> text (ryu, {:e}, str::parse) is not modelled — floats are exact "
                   "shortest decimals and generators stay where ryu and {:e} agree; the incremental theorems are about the "
-                  "Lean transcription of the automaton and decoders (tied to the real ones by chunksm), chunks of characters "
-                  "(read_utf8's byte splitting is modelled and tested, not in the theorem); WithLen freshness between frames "
+                  "Lean transcription of the automaton and decoders (tied to the real ones by chunksm), over chunks of characters "
+                  "and over chunks of BYTES that may cut a multi-byte character (C09_incremental_eq_oneshot_bytes, over the "
+                  "hand-written UTF-8 codec Model/Utf8.lean with decode(encode) = id and read_utf8 specified on every prefix of a "
+                  "valid encoding); WithLen freshness between frames "
                   "is proved given decode_eof resets on BadUtf8, which the code does not (known finding C09-N5).",
     "trusted_base": COMMON_TRUST + [
         "modelled, not verified: nom (streaming combinators), ryu / core::fmt {:e} / str::parse::<f64>, base64, "
